@@ -99,7 +99,7 @@ Definition valid_method (m : bytes) : bool := mem_bytes m methods.
 
 (** ** Registration *)
 
-Definition route := (bytes * bytes)%type.   (* registered path, method *)
+Notation route := (list N * list N)%type (only parsing).   (* registered path, method *)
 
 (** two patterns that occupy the same place in the table: equal literals, a parameter
     where the other has a parameter (names do not matter), [*] where the other has [*] *)
